@@ -363,6 +363,7 @@ def real_configs(tier, seed):
         else:
             # every other reflector scenario is long (bursts of one peer through the single forwarder of a reflector)
             out.append(["reflect", str(r.range(2, 5)), "0", str(r.range(10, 30) if i % 4 == 1 else r.range(300, 500)), str(r.below(1 << 30))])
+    out.append(["rawfan", str(r.range(3, 5)), "0", str(r.range(8, 20)), str(r.below(1 << 30))])
     return out
 
 
